@@ -337,16 +337,17 @@ func (c *oCache) TryRemove(id string) (ok bool, err error) {
 	closed, err := e.value.TryClose(c.ttl)
 	if err != nil {
 		c.log.With("object_id", e.id).Warnf("try remove err: %v", err)
-		return closed, err
 	}
 
+	// the entry must leave the closing state on the error path too,
+	// otherwise every later Get/Remove of this id waits on it forever
 	if !closed {
 		e.setActive(true)
-		return false, nil
+		return false, err
 	}
 
 	c.closeAndDelete(e)
-	return true, nil
+	return true, err
 }
 
 func (c *oCache) DoLockedIfNotExists(id string, action func() error) error {
